@@ -56,7 +56,7 @@ func (c Case3) versionList(v int) ListSpec {
 	ls := ListSpec{Google: c.List.Google, Logs: append([]LogSpec(nil), c.List.Logs...)}
 	for i := range ls.Logs {
 		if c.Versions[v].Retired[i] {
-			ls.Logs[i].State = stRetired
+			ls.Logs[i].State, ls.Logs[i].Extra = stRetired, 0
 		}
 	}
 	return ls
@@ -338,6 +338,7 @@ func check3(t *testing.T, c Case3) harness.Verdict {
 	if len(res.Reports) > 0 {
 		v.Class("race-reported")
 	}
+	v.Class(stanzaClasses(c.List)...)
 	anyBad := false
 	for si, s := range c.Subs {
 		o := out.Subs[si]
